@@ -116,11 +116,15 @@ func (s *OperationProcessor) Resolve(uniqueSuffix string, opts ...document.Resol
 		return nil, errors.New("valid create operation not found")
 	}
 
+	// commitments that have been consumed in the course of this resolution: by the recovery chain and then by the
+	// update chain - no commitment is consumed twice, in whichever of the two chains it comes up again
+	consumed := make(map[string]bool)
+
 	// apply 'full' operations first
 	if len(fullOps) > 0 {
 		s.logger.Debug("Applying full operations", logfields.WithTotal(len(fullOps)), logfields.WithSuffix(uniqueSuffix))
 
-		rm = s.applyOperations(fullOps, rm, getRecoveryCommitment)
+		rm = s.applyOperations(fullOps, rm, getRecoveryCommitment, consumed)
 		if rm.Deactivated {
 			// document was deactivated, stop processing
 			return rm, nil
@@ -129,10 +133,10 @@ func (s *OperationProcessor) Resolve(uniqueSuffix string, opts ...document.Resol
 
 	// next apply update ops since last 'full' transaction
 	filteredUpdateOps := getOpsWithTxnGreaterThanOrUnpublished(updateOps, rm.LastOperationTransactionTime, rm.LastOperationTransactionNumber)
-	if len(filteredUpdateOps) > 0 {
+	if len(filteredUpdateOps) > 0 && !consumed[rm.UpdateCommitment] {
 		s.logger.Debug("Applying update operations after last full operation", logfields.WithTotal(len(filteredUpdateOps)),
 			logfields.WithSuffix(uniqueSuffix))
-		rm = s.applyOperations(filteredUpdateOps, rm, getUpdateCommitment)
+		rm = s.applyOperations(filteredUpdateOps, rm, getUpdateCommitment, consumed)
 	}
 
 	return rm, nil
@@ -353,16 +357,13 @@ func isOpWithTxnGreaterThanOrUnpublished(op *operation.AnchoredOperation, txnTim
 }
 
 func (s *OperationProcessor) applyOperations(ops []*operation.AnchoredOperation, rm *protocol.ResolutionModel,
-	commitmentFnc fnc) *protocol.ResolutionModel {
+	commitmentFnc fnc, commitmentMap map[string]bool) *protocol.ResolutionModel {
 	// suffix for logging
 	uniqueSuffix := ops[0].UniqueSuffix
 
 	state := rm
 
 	opMap := s.createOperationHashMap(ops)
-
-	// holds applied commitments
-	commitmentMap := make(map[string]bool)
 
 	c := commitmentFnc(state)
 
